@@ -222,7 +222,21 @@ func TestC05(t *testing.T) {
 	// fingerprinted padded captures
 	replays := 0
 	for _, p := range padded {
-		for _, l := range []int{8, 40, 100} {
+		// server-name lengths: three ordinary ones, plus ones at which this parrot's padding
+		// body is small (1..40 bytes), where a capture with a shorter legacy_session_id has no
+		// room to absorb the 32 bytes utls always sends
+		lens := []int{8, 40, 100}
+		small := 0
+		for l := 4; l < 250 && small < 3; l++ {
+			if raw, _, err, _ := buildHello(&tls.Config{ServerName: sniOfLen(l, 1), OmitEmptyPsk: true}, p.ID, nil); err == nil {
+				if c, err := wire.ParseClientHello(raw); err == nil && c.PaddingLen > 0 && c.PaddingLen <= 40 && !c.Has(wire.ExtPreSharedKey) {
+					lens = append(lens, l)
+					small++
+					l += 7
+				}
+			}
+		}
+		for _, l := range lens {
 			capSNI := sniOfLen(l, 1)
 			capRaw, _, err, _ := buildHello(&tls.Config{ServerName: capSNI, OmitEmptyPsk: true}, p.ID, nil)
 			if err != nil {
@@ -238,13 +252,10 @@ func TestC05(t *testing.T) {
 			f := &tls.Fingerprinter{}
 			for k := 0; k < 6; k++ {
 				// k >= 3: the same capture as another stack would have sent it, with a legacy_session_id
-				// of another length (empty as in QUIC / TLS 1.2-style hellos, 8, 16 bytes); the padding
-				// is large enough to absorb the difference to the 32 bytes utls sends
+				// of another length (empty as in QUIC / TLS 1.2-style hellos, 8, 16 bytes)
+				sidLen := 32
 				if k >= 3 {
-					if cch.PaddingLen < 48 {
-						continue
-					}
-					sidLen := []int{0, 8, 16}[k-3]
+					sidLen = []int{0, 8, 16}[k-3]
 					c2 := *cch
 					c2.SessionID = cch.SessionID[:sidLen]
 					capRaw = marshalCH(&c2, cch.Exts, true)
@@ -269,7 +280,14 @@ func TestC05(t *testing.T) {
 				// per-connection parts of equal size? (ECH GREASE payload length is drawn per connection for parrots,
 				// but the fingerprinted spec pins it to the captured one)
 				if len(raw) != len(capRaw) {
-					r.Violation(map[string]string{"kind": "captured_length_not_reproduced", "parrot": p.Name},
+					sig := map[string]string{"kind": "captured_length_not_reproduced", "parrot": p.Name}
+					if sidLen < 32 && cch.PaddingLen <= 32-sidLen {
+						// F31 (known): the spec does not record the captured session-id length and
+						// utls always sends 32 bytes; with so little padding the difference cannot
+						// be absorbed
+						sig = map[string]string{"kind": "captured_length_not_reproduced", "class": "session_id_shorter_than_32_and_padding_too_small_to_absorb"}
+					}
+					r.Violation(sig,
 						fmt.Sprintf("%s: capture is %d bytes (padding %d), replay with a server name of the same length is %d bytes (padding %d)", p.Name, len(capRaw), cch.PaddingLen, len(raw), ch.PaddingLen), map[string]any{"capture": mon.Hex(capRaw), "replay": mon.Hex(raw)})
 				}
 				r.Case(fmt.Sprintf("fp|%s|%d", p.Name, l), true)
